@@ -6,8 +6,8 @@ import vlib
 ID = "C15"
 GEN_FILES = ["Tags.v", "Limits.v", "Ranks.v", "DecoderArms.v"]
 RULE = ("types: the harness's registry of representative Rust types (every integer width, f32/f64, bool, char, String, unit, Option, tuples, "
-        "Vec, HashMap/BTreeMap with string/integer/char keys, named structs, derive(ElixirStruct) structs, an enum with all four variant "
-        "shapes, and nestings), read back from the harness so generator and harness cannot drift; values: per type, every integer at its "
+        "Vec, HashMap/BTreeMap with string/integer/char keys, named structs, unit / newtype / tuple structs, a byte buffer, derive(ElixirStruct) "
+        "structs, enums with all four variant shapes, and nestings), read back from the harness so generator and harness cannot drift; values: per type, every integer at its "
         "minimum, maximum, 0, +-1, the 32-bit and 63-bit boundaries and random values over the full range, floats incl. subnormal, "
         "infinities and negative zero, chars from every UTF-8 length class incl. non-BMP, strings empty/ASCII/multi-byte/long, options "
         "None/Some, empty and non-empty sequences and maps; each value goes through to_term/from_term and to_bytes/from_bytes; "
@@ -39,8 +39,14 @@ INTS = {"I8": (-2**7, 2**7 - 1), "I16": (-2**15, 2**15 - 1), "I32": (-2**31, 2**
 
 def rd_ty(p):
     k = p.next()
-    if k in INTS or k in ("B", "F32", "F64", "C", "Str", "Unit"):
+    if k in INTS or k in ("B", "F32", "F64", "C", "Str", "Unit", "By"):
         return (k,)
+    if k == "US":
+        return ("US", etf.unhex(p.next()))
+    if k == "NT":
+        return ("NT", rd_ty(p))
+    if k == "TS":
+        return ("TS", [rd_ty(p) for _ in range(int(p.next()))])
     if k == "O":
         return ("O", rd_ty(p))
     if k == "T":
@@ -136,8 +142,14 @@ def gen_val(rng, ty, depth=0):
                                                           rng.randrange(0x10000, 0x110000)]))]).encode("utf-8"))
     if k == "Str":
         return ("s", rng.choice(STRS).encode())
-    if k == "Unit":
+    if k in ("Unit", "US"):
         return ("u",)
+    if k == "By":
+        return ("s", rng.choice([b"", b"\x00", b"\xff\xfe", b"abc", "h\u00e9".encode(), bytes(rng.randrange(256) for _ in range(rng.choice([1, 5, 70, 300])))]))
+    if k == "NT":
+        return ("T", [gen_val(rng, ty[1], depth + 1)])
+    if k == "TS":
+        return ("T", [gen_val(rng, t, depth + 1) for t in ty[1]])
     if k == "O":
         return ("N",) if rng.random() < 0.3 else ("S", gen_val(rng, ty[1], depth + 1))
     if k == "T":
@@ -184,8 +196,15 @@ def edge_vals(ty, depth=0):
         return [("c", c.encode()) for c in ("a", "\u00e9", "\u65e5", "\U0001f600")]
     if k == "Str":
         return [("s", b""), ("s", "h\u00e9".encode())]
-    if k == "Unit":
+    if k in ("Unit", "US"):
         return [("u",)]
+    if k == "By":
+        return [("s", b""), ("s", b"\xff\x00\x80"), ("s", b"ok")]
+    if k == "NT":
+        return [("T", [x]) for x in edge_vals(ty[1], depth + 1)[: (3 if depth < 2 else 1)]]
+    if k == "TS":
+        cols = [edge_vals(t, depth + 1)[: (3 if depth < 2 else 1)] for t in ty[1]]
+        return [("T", [c[i % len(c)] for c in cols]) for i in range(max(len(c) for c in cols))]
     sub = lambda t: edge_vals(t, depth + 1)[: (3 if depth < 2 else 1)]  # noqa
     if k == "O":
         return [("N",)] + [("S", x) for x in sub(ty[1])]
@@ -250,6 +269,14 @@ def spec_ser(ty, v):
         return ("b", v[1])
     if k == "Unit":
         return A(b"nil")
+    if k == "US":        # a unit struct is the atom of its name
+        return A(ty[1])
+    if k == "By":        # bytes are a binary
+        return ("b", v[1])
+    if k == "NT":        # a newtype struct is its content
+        return spec_ser(ty[1], v[1][0])
+    if k == "TS":        # a tuple struct is a tuple
+        return ("t", [spec_ser(t, x) for t, x in zip(ty[1], v[1])])
     if k == "O":
         return A(b"undefined") if v[0] == "N" else spec_ser(ty[1], v[1])
     if k == "T":
@@ -297,6 +324,14 @@ def same_value_variants(t, rng):
     return []
 
 
+def is_utf8(b):
+    try:
+        b.decode("utf-8")
+        return True
+    except UnicodeDecodeError:
+        return False
+
+
 def mutate(t, rng, same):
     """replace one node; `same` selects value-preserving replacements"""
     nodes = []
@@ -338,7 +373,9 @@ def mutate(t, rng, same):
             elif k == "a":
                 alts = [("b", x[1]), ("s", x[1]), A(b"nil"), A(b"undefined"), A(x[1] + b"x"), ("i", 1)]
             elif k == "b":
-                alts = [("s", x[1]), A(x[1]), ("b", x[1] + b"\xff"), ("l", [("i", c) for c in x[1][:3]]), ("i", 0)]
+                alts = [("b", x[1] + b"\xff"), ("l", [("i", c) for c in x[1][:3]]), ("i", 0)]
+                if is_utf8(x[1]):     # an atom or a string term holds text: only text can be moved into one
+                    alts += [("s", x[1]), A(x[1])]
             elif k == "s":
                 alts = [("s", x[1] + b"a"), ("s", b""), A(x[1]), ("i", 1)]
             elif k == "f":
